@@ -17,7 +17,7 @@ func init() {
 		DoesNotCover: "That every id a deletion function receives at run time is unreferenced (a property of histories) is not decided; crash points are not enumerated (C08).",
 	}, runC10)
 	register("C11", propMeta{
-		Explanation:  "Decides that every artifact class a transaction stages has an undo and that logs are removed on every terminal path: (R1) the undo table (shared with C07.R1): every persistent commit step has a guarded undo block calling the matching undo function in the live rollback and in the dead-transaction log replay; (R2) partial steps (shared with C07.R2); (R3) transaction logs are removed on every terminal path - rollback, cleanup, log replay (shared with C07.R4) - and the priority log is removed after a successful commit and by the live rollback once it may have been written; (R4) obsolete data is actually handed to deletion after a commit: cleanup passes getToBeObsoleteEntries() to deleteObsoleteEntries and getObsoleteTrackedItemsValues() to deleteTrackedItemsValues, and the functions that only BUILD log payloads do not consume the deletion queue that a later step reads. (R5) Undo discoverability, derived from the undo functions: rollbackUpdatedNodes finds the blobs it deletes through the inactive ids recorded in the registry, so commitUpdatedNodes must record them in the registry before, and only if that succeeded then, write the blobs.",
+		Explanation:  "Decides that every artifact class a transaction stages has an undo and that logs are removed on every terminal path: (R1) the undo table (shared with C07.R1): every persistent commit step has a guarded undo block calling the matching undo function in the live rollback and in the dead-transaction log replay; (R2) partial steps (shared with C07.R2); (R3) transaction logs are removed on every terminal path - rollback, cleanup, log replay (shared with C07.R4) - and the priority log is removed after a successful commit and by the live rollback once it may have been written; (R4) obsolete data is actually handed to deletion after a commit: cleanup passes getToBeObsoleteEntries() to deleteObsoleteEntries and getObsoleteTrackedItemsValues() to deleteTrackedItemsValues, and the functions that only BUILD log payloads do not consume the deletion queue that a later step reads. (R5) Undo discoverability, derived from the undo functions: rollbackUpdatedNodes finds the blobs it deletes through the inactive ids recorded in the registry, so commitUpdatedNodes must record them in the registry before, and only if that succeeded then, write the blobs. (R6) every step is announced (logged) before it acts, on first and repeated execution (shared with C08.R1): the rollback decides from the announced step whether the previous step's artifacts must be removed.",
 		DoesNotCover: "Comparing the blob store / registry contents with the reachable set is a runtime matter and is not decided.",
 	}, runC11)
 }
@@ -448,6 +448,8 @@ func runC11(c *Ctx) {
 		c.Check(len(w.usesOf(consumer, queue, false)) >= 1 && len(w.writesOf(consumer, queue, true)) == 0, r4, "getObsoleteTrackedItemsValues reads the deletion queue without consuming it", consumer.Decl.Pos(), "reads, does not write", "the consumer of the deletion queue no longer reads it (or clears it before phase 2 logs it)", nil)
 	}
 
+	r6 := c.Rule("R6", "every step is announced before it acts: the live rollback decides from the announced step whether the PREVIOUS step's artifacts (staged blobs, reserved ids) must be removed (`committedState > previous`), so a step that is announced only after it succeeded makes its own failure skip the previous step's undo (shared with C08.R1)", 16)
+	logBeforeActRule(c, r6, logActSteps)
 	r5 := c.Rule("R5", "what an undo function must look up in the registry is recorded there before the data it leads to is written: rollbackUpdatedNodes finds the staged blobs through the inactive ids of the registry handles, so commitUpdatedNodes writes the reservation before (and only if it succeeded, then) the blobs (derived; shared with C03.R1 / C37.R2)", 3)
 	undoDiscoveryRule(c, r5)
 }
